@@ -311,3 +311,50 @@ pub fn b4() -> File {
 pub fn bases() -> Vec<(&'static str, File)> {
     vec![("b1", b1()), ("b2", b2()), ("b3", b3()), ("b4", b4())]
 }
+
+// ---- accessors into a File (n-th chunk of a kind, across all frames in file order) ----
+
+macro_rules! nth_mut {
+    ($fname:ident, $variant:ident, $ty:ty) => {
+        pub fn $fname(f: &mut File, n: usize) -> &mut $ty {
+            let mut k = 0;
+            for fr in f.frames.iter_mut() {
+                for ch in fr.chunks.iter_mut() {
+                    if let Body::$variant(x) = &mut ch.body {
+                        if k == n {
+                            return x;
+                        }
+                        k += 1;
+                    }
+                }
+            }
+            panic!(concat!(stringify!($fname), ": no such chunk"));
+        }
+    };
+}
+nth_mut!(layer_mut, Layer, Layer);
+nth_mut!(cel_mut, Cel, Cel);
+nth_mut!(tags_mut, Tags, Tags);
+nth_mut!(slice_mut, Slice, Slice);
+nth_mut!(palette_mut, Palette, Palette);
+nth_mut!(extfiles_mut, ExternalFiles, ExternalFiles);
+nth_mut!(tileset_mut, Tileset, Tileset);
+nth_mut!(userdata_mut, UserData, UserData);
+nth_mut!(profile_mut, ColorProfile, ColorProfile);
+
+pub fn count_kind(f: &File, kind: &str) -> usize {
+    f.frames.iter().flat_map(|fr| fr.chunks.iter()).filter(|c| c.body.kind_name() == kind).count()
+}
+
+/// positions (frame, chunk) of all chunks of a kind
+pub fn positions(f: &File, kind: &str) -> Vec<(usize, usize)> {
+    let mut v = Vec::new();
+    for (fi, fr) in f.frames.iter().enumerate() {
+        for (ci, c) in fr.chunks.iter().enumerate() {
+            if c.body.kind_name() == kind {
+                v.push((fi, ci));
+            }
+        }
+    }
+    v
+}
